@@ -20,7 +20,20 @@ type streamCase struct {
 	Segs    []int   `json:"segs"`
 	Handler string  `json:"handler"`
 	E2E     bool    `json:"e2e"`
+	// op "conns": several connections to one server, reads interleaved as the schedule says
+	Streams [][][]int  `json:"streams"`
+	Steps   []connStep `json:"steps"`
+	Burst   int        `json:"burst"` // > 0: no schedule, every connection sends its whole stream at once, Burst rounds
 }
+
+type connStep struct {
+	A string `json:"a"` // read | leave
+	C int    `json:"c"`
+	N int    `json:"n"`
+}
+
+// one error VALUE shared by every call of the handler (a package-level sentinel, as handlers commonly have)
+var sharedHandlerErr = packet.NewErrorParseTCP(packet.ErrServerFailure, "verif: shared handler error")
 
 // devHandler is the device of ServerStream.tla (registers hold their own address, coil a is set iff
 // a mod 3 = 0, FC17 id 01 02 / status FF / extra 03) or one of the faulty handler behaviours.
@@ -30,6 +43,8 @@ func (h *devHandler) Handle(ctx context.Context, received packet.Request) (packe
 	switch h.kind {
 	case "errTyped":
 		return nil, packet.NewErrorParseTCP(packet.ErrServerFailure, "verif: typed handler error")
+	case "errShared":
+		return nil, sharedHandlerErr
 	case "errGeneric":
 		return nil, errors.New("verif: generic handler error")
 	case "panic":
@@ -104,7 +119,7 @@ func segments(c *streamCase) [][]byte {
 
 // direct: (*ModbusTCPAssembler).ReceiveRead called segment by segment
 func runStreamDirect(c *streamCase) []Ev {
-	evs := []Ev{{"ev": "reset", "mode": "direct", "frames": c.Frames, "handler": c.Handler}}
+	evs := []Ev{{"ev": "reset", "mode": "direct", "frames": c.Frames, "streams": [][][]int{c.Frames}, "handler": c.Handler}}
 	asm := &server.ModbusTCPAssembler{Handler: &devHandler{kind: c.Handler}}
 	buf := make([]byte, 300)
 	for _, s := range segments(c) {
@@ -113,7 +128,7 @@ func runStreamDirect(c *streamCase) []Ev {
 			buf[i] = 0xEE
 		}
 		copy(buf, s)
-		e := Ev{"ev": "segment", "bytes": ints(s), "out": []int{}, "close": false, "panic": false}
+		e := Ev{"ev": "segment", "conn": 1, "bytes": ints(s), "out": []int{}, "close": false, "panic": false}
 		func() {
 			defer func() {
 				if p := recover(); p != nil {
@@ -153,14 +168,23 @@ func (l *pipeListener) Accept() (net.Conn, error) {
 func (l *pipeListener) Close() error   { l.once.Do(func() { close(l.closed) }); return nil }
 func (l *pipeListener) Addr() net.Addr { return &net.TCPAddr{IP: net.IPv4(127, 0, 0, 1), Port: 502} }
 func (l *pipeListener) dial() (net.Conn, error) {
+	a, _, err := l.dial2(nil)
+	return a, err
+}
+
+// dial2 also returns the server's end; prepare runs on it before the server can see it
+func (l *pipeListener) dial2(prepare func(serverSide net.Conn)) (net.Conn, net.Conn, error) {
 	a, b := net.Pipe()
+	if prepare != nil {
+		prepare(b)
+	}
 	select {
 	case l.ch <- b:
-		return a, nil
+		return a, b, nil
 	case <-l.closed:
-		return nil, net.ErrClosed
+		return nil, nil, net.ErrClosed
 	case <-time.After(2 * time.Second):
-		return nil, errors.New("verif: accept did not happen")
+		return nil, nil, errors.New("verif: accept did not happen")
 	}
 }
 
@@ -187,7 +211,7 @@ func (t *tapAssembler) ReceiveRead(ctx context.Context, received []byte, bytesRe
 // e2e: the same segments through server.Server over the in-memory listener; afterwards a second
 // connection performs a plain FC3 exchange ("never disturbs other connections")
 func runStreamE2E(c *streamCase) []Ev {
-	evs := []Ev{{"ev": "reset", "mode": "e2e", "frames": c.Frames, "handler": c.Handler}}
+	evs := []Ev{{"ev": "reset", "mode": "e2e", "frames": c.Frames, "streams": [][][]int{c.Frames}, "handler": c.Handler}}
 	ln := newPipeListener()
 	taps := make(chan *tapAssembler, 4)
 	first := true
@@ -237,7 +261,7 @@ func runStreamE2E(c *streamCase) []Ev {
 	}()
 	seen := 0
 	for _, s := range segments(c) {
-		e := Ev{"ev": "segment", "bytes": ints(s), "out": []int{}, "close": false, "panic": false}
+		e := Ev{"ev": "segment", "conn": 1, "bytes": ints(s), "out": []int{}, "close": false, "panic": false}
 		conn.SetWriteDeadline(time.Now().Add(2 * time.Second))
 		if _, err := conn.Write(s); err != nil {
 			e["close"] = true
@@ -299,7 +323,200 @@ func runStreamE2E(c *streamCase) []Ev {
 	return evs
 }
 
+// ---- several connections to one server, the server's OWN assembler creation (op "conns") ----
+
+// the server's hook points tell the driver when a read has been handled (conn.unmark) or the connection's
+// goroutine has ended (conn.exit); events are routed by the server-side connection object
+type connHookEv struct {
+	point string
+	n     int64
+}
+
+var connHooks sync.Map // net.Conn (server side) -> chan connHookEv
+
+func streamHook(point string, conn net.Conn, n int64) {
+	if conn == nil {
+		return
+	}
+	if v, ok := connHooks.Load(conn); ok {
+		switch point {
+		case "conn.wrote", "conn.writefail", "conn.unmark", "conn.exit":
+			select {
+			case v.(chan connHookEv) <- connHookEv{point, n}:
+			default:
+			}
+		}
+	}
+}
+
+type connPeer struct {
+	id     int
+	conn   net.Conn
+	hook   chan connHookEv
+	all    []byte
+	off    int
+	mu     sync.Mutex
+	got    []byte
+	eof    bool
+	seen   int
+	exited bool
+}
+
+func (p *connPeer) reader() {
+	b := make([]byte, 600)
+	for {
+		n, err := p.conn.Read(b)
+		p.mu.Lock()
+		p.got = append(p.got, b[:n]...)
+		if err != nil {
+			p.eof = true
+		}
+		p.mu.Unlock()
+		if err != nil {
+			return
+		}
+	}
+}
+
+// send writes the next n stream bytes and waits until the server has handled the read; returns the event
+func (p *connPeer) send(n int) Ev {
+	if p.off+n > len(p.all) {
+		n = len(p.all) - p.off
+	}
+	s := p.all[p.off : p.off+n]
+	p.off += n
+	e := Ev{"ev": "segment", "conn": p.id, "bytes": ints(s), "out": []int{}, "close": false, "panic": false}
+	if p.exited {
+		e["close"] = true
+		return e
+	}
+	p.conn.SetWriteDeadline(time.Now().Add(2 * time.Second))
+	if _, err := p.conn.Write(s); err != nil {
+		e["close"] = true
+		return e
+	}
+	wrote := 0
+	timeout := time.After(3 * time.Second)
+wait:
+	for {
+		select {
+		case h := <-p.hook:
+			switch h.point {
+			case "conn.wrote":
+				wrote += int(h.n)
+			case "conn.unmark":
+				break wait
+			case "conn.exit":
+				p.exited = true
+				break wait
+			}
+		case <-timeout:
+			return Ev{"ev": "harness", "what": "server did not handle the read"}
+		}
+	}
+	p.collect(e, wrote)
+	return e
+}
+
+// collect waits for `expect` more bytes (what the server says it wrote) and records what arrived
+func (p *connPeer) collect(e Ev, expect int) {
+	deadline := time.Now().Add(2 * time.Second)
+	for {
+		p.mu.Lock()
+		n, isEOF := len(p.got), p.eof
+		p.mu.Unlock()
+		if n >= p.seen+expect || isEOF || time.Now().After(deadline) {
+			break
+		}
+		time.Sleep(50 * time.Microsecond)
+	}
+	p.mu.Lock()
+	e["out"] = ints(p.got[p.seen:])
+	p.seen = len(p.got)
+	e["close"] = p.eof
+	p.mu.Unlock()
+}
+
+func runStreamConns(c *streamCase) []Ev {
+	raw, _ := json.Marshal(c)
+	evs := []Ev{{"ev": "reset", "mode": "conns", "frames": [][]int{}, "streams": c.Streams, "handler": c.Handler, "case": json.RawMessage(raw)}}
+	ln := newPipeListener()
+	srv := &server.Server{WriteTimeout: 2 * time.Second, ReadTimeout: 2 * time.Millisecond, OnErrorFunc: func(err error) {}}
+	ctx, cancel := context.WithCancel(context.Background())
+	defer cancel()
+	served := make(chan error, 1)
+	go func() { served <- srv.Serve(ctx, ln, &devHandler{kind: c.Handler}) }()
+	var peers []*connPeer
+	var servers []net.Conn
+	for i, st := range c.Streams {
+		p := &connPeer{id: i + 1, hook: make(chan connHookEv, 64)}
+		for _, f := range st {
+			p.all = append(p.all, bytesOf(f)...)
+		}
+		a, b, err := ln.dial2(func(b net.Conn) { connHooks.Store(b, p.hook) })
+		if err != nil {
+			return append(evs, Ev{"ev": "harness", "what": "dial failed: " + err.Error()})
+		}
+		p.conn = a
+		servers = append(servers, b)
+		go p.reader()
+		peers = append(peers, p)
+	}
+	defer func() {
+		for _, b := range servers {
+			connHooks.Delete(b)
+		}
+	}()
+	if c.Burst > 0 {
+		// free running: every connection sends its whole stream at the same moment
+		for round := 0; round < c.Burst; round++ {
+			res := make([]Ev, len(peers))
+			var wg sync.WaitGroup
+			for i, p := range peers {
+				wg.Add(1)
+				go func(i int, p *connPeer) {
+					defer wg.Done()
+					p.off = 0
+					res[i] = p.send(len(p.all))
+				}(i, p)
+			}
+			wg.Wait()
+			if round > 0 {
+				// a new round is a repetition of the same streams: the monitor sees it as a new stream
+				evs = append(evs, Ev{"ev": "reset", "mode": "conns", "frames": [][]int{}, "streams": c.Streams, "handler": c.Handler, "case": json.RawMessage(raw)})
+			}
+			evs = append(evs, res...)
+		}
+	} else {
+		for _, st := range c.Steps {
+			p := peers[st.C-1]
+			switch st.A {
+			case "read":
+				evs = append(evs, p.send(st.N))
+			case "leave":
+				// whatever reached this client after its last read belongs to the stream too
+				e := Ev{"ev": "segment", "conn": p.id, "bytes": []int{}, "out": []int{}, "close": false, "panic": false}
+				p.collect(e, 0)
+				evs = append(evs, e)
+				p.conn.Close()
+				evs = append(evs, Ev{"ev": "leave", "conn": p.id})
+			}
+		}
+	}
+	for _, p := range peers {
+		p.conn.Close()
+	}
+	cancel()
+	ln.Close()
+	select {
+	case <-served:
+	case <-time.After(2 * time.Second):
+	}
+	return evs
+}
+
 func driveStream(w *writer) error {
+	server.VerifHook = streamHook
 	var cases []*streamCase
 	err := readCases(flagIn, func(line []byte) error {
 		c := &streamCase{}
@@ -319,7 +536,9 @@ func driveStream(w *writer) error {
 		go func() {
 			defer wg.Done()
 			for c := range ch {
-				if c.E2E {
+				if c.Op == "conns" {
+					w.emitAll(runStreamConns(c))
+				} else if c.E2E {
 					w.emitAll(runStreamE2E(c))
 				} else {
 					w.emitAll(runStreamDirect(c))
